@@ -36,7 +36,7 @@ def acc(name, kind, k, what, solver, mutants, tier="quick"):
 
 NOPRE = ["--sat-solver", "cadical"]   # minisat (with or without its preprocessor) is erratic on these instances (some radices 1 s, others
 #                                        time out - probed); cadical needs 3 s for every radix with object_bits 8
-MS_SOLVER = []
+MS_SOLVER = ["--no-sat-preprocessor"]   # 2-3x faster than the default on these pointer-only instances (probed)
 CADICAL = ["--sat-solver", "cadical"]
 acc("dec", 0, 10, "no radix prefix (decimal)", CADICAL, [dict(M_GUARD, expect="overflow")])
 acc("hex", 1, 16, "prefix 0x", NOPRE, [dict(M_NOGUARD, expect="overflow")])
@@ -156,5 +156,47 @@ if __name__ == "__main__":
             "src": ["strtod.c"], "harness": ["num_scan_value.c"], "entry": entry, "mode": "plain",
             "defines": ["-DNUM_KIND=9", "-DNUM_NOVALUE", "-DNUM_MAXLEN=24"], "functions": fn, "unwind": 25,
             "checks": ["bounds-check", "pointer-check"], "cbmc": MS_SOLVER, "timeout": 300, "mutants": MS_MUT})
+    # ---- bignum (mantissa) memory safety and carry arithmetic ----
+    BN = {"props": ["C13"], "tier": "quick", "class": "proved", "src": ["strtod.c"], "harness": ["num_bignat.c"], "mode": "dfcc",
+          "cbmc": CADICAL, "timeout": 300}
+    BCH = ["bounds-check", "pointer-check", "signed-overflow-check", "unsigned-overflow-check", "div-by-zero-check"]
+    WF = ("wf_bignat: 0 <= n <= cap <= 2^28, digits = cap uint32 (NULL when cap == 0); the bound on cap follows from the callers "
+          "(len <= INT32_MAX/40, one digit appended per byte at most)")
+    units.append(dict(BN, id="num.bignat.muladd", entry="h_bignat_muladd", enforce=["bignat_muladd/bignat_muladd_c"],
+                      replace=["bignat_append/bignat_append_c"],
+                      clause="bignat_muladd, any digit count: every digits[i] access in range, carry <= 2*factor+2 throughout (carry + digit*factor never wraps 64 bits, "
+                             "final carry fits a digit), every digit written and the digit appended are < 2^31 (digit bound preserved)",
+                      loops={"bignat_muladd": [{"loop_id": "0",
+                             "invariants": "0 <= i && i <= mant->n && mant->n == g_n0 && carry <= 2 * (unsigned long)factor + 2 && ((0 <= g_idx && g_idx < i) ==> mant->digits[g_idx] < 2147483648u)",
+                             "assigns": "i, carry; mant->cap > 0: __CPROVER_object_whole(mant->digits)", "decreases": "mant->n - i",
+                             "symbol_map": "i,bignat_muladd::1::i;carry,bignat_muladd::1::carry;mant,bignat_muladd::mant;factor,bignat_muladd::factor"}]},
+                      loop_counts={"bignat_muladd": 1}, checks=BCH + ["conversion-check"],
+                      assumes=[WF, "bignat_append replaced by its contract bignat_append_c (precondition dig < 2^31 asserted at the call); proved by num.bignat.append"],
+                      mutants=[{"name": "loop-off-by-one", "file": "strtod.c", "find": "for (i = 0; i < mant->n; i++) {\n        carry +=", "replace": "for (i = 0; i <= mant->n; i++) {\n        carry +=", "expect": "pointer_dereference|bounds|invariant|assigns"},
+                               {"name": "digit-not-reduced", "file": "strtod.c", "find": "mant->digits[i] = carry % BIGNAT_BASE;", "replace": "mant->digits[i] = carry;", "expect": "invariant|overflow|conversion"}]))
+    units.append(dict(BN, id="num.bignat.extra", entry="h_bignat_extra", enforce=["bignat_extra/bignat_extra_c"], replace=["realloc/realloc_c"],
+                      clause="bignat_extra: n grows by the request, n <= cap afterwards, the returned pointer is digits + old n and the new digits are writable storage; "
+                             "capacity arithmetic (old n + extra, 2*new n) does not overflow",
+                      checks=BCH + ["conversion-check"], assumes=[WF, "realloc returns NULL or a fresh block of the requested size (contract realloc_c); content preservation is not modelled"],
+                      mutants=[{"name": "capacity-test-off-by-one", "file": "strtod.c", "find": "if (mant->cap < newn) {", "replace": "if (mant->cap + 1 < newn) {", "expect": "postcondition|overflow"}]))
+    units.append(dict(BN, id="num.bignat.append", entry="h_bignat_append", enforce=["bignat_append/bignat_append_e"], replace=["realloc/realloc_c"],
+                      clause="bignat_append: stores the digit at position old n inside the (possibly reallocated) block, n <= cap afterwards",
+                      checks=BCH + ["conversion-check"], assumes=[WF, "realloc contract as in num.bignat.extra"],
+                      mutants=[{"name": "capacity-test-off-by-one", "file": "strtod.c", "find": "if (mant->cap < newn) {", "replace": "if (mant->cap + 1 < newn) {", "expect": "pointer_dereference|postcondition|assigns"}]))
+    units.append(dict(BN, id="num.bignat.div", entry="h_bignat_div", enforce=["bignat_div/bignat_div_c"],
+                      clause="bignat_div, any digit count: every digits[i] / digits[i+1] access in range, remainder*2^31 + digit never wraps 64 bits, no division by zero, n shrinks by at most one",
+                      loops={"bignat_div": [{"loop_id": "0", "invariants": "-1 <= i && i <= mant->n - 1 && mant->n == g_n0",
+                             "assigns": "i, quotient, remainder, dividend; mant->cap > 0: __CPROVER_object_whole(mant->digits)", "decreases": "i + 1",
+                             "symbol_map": "i,bignat_div::1::i;quotient,bignat_div::1::quotient;remainder,bignat_div::1::remainder;dividend,bignat_div::1::dividend;mant,bignat_div::mant"}]},
+                      loop_counts={"bignat_div": 1}, checks=BCH, assumes=[WF],
+                      undecided_clauses=["that the 64-bit quotient dividend/divisor fits the 32-bit digit (needs remainder < divisor and a division by a symbolic divisor: DESIGN R5) - conversion-check is off in this unit"],
+                      mutants=[{"name": "carry-digit-index-off-by-one", "file": "strtod.c", "find": "if (i < mant->n - 1) mant->digits[i + 1] = quotient;", "replace": "if (i < mant->n) mant->digits[i + 1] = quotient;", "expect": "pointer_dereference|bounds|assigns"}]))
+    units.append(dict(BN, id="num.bignat.lshift", entry="h_bignat_lshift", enforce=["bignat_lshift_n/bignat_lshift_n_c"],
+                      replace=["realloc/realloc_c", "memmove/memmove_c", "memset/memset_c"],
+                      clause="bignat_lshift_n: the memmove/memset ranges and the digits[n-1] store lie inside the (re)allocated digit array; n grows by the shift, first_digit cleared",
+                      checks=BCH + ["conversion-check"],
+                      assumes=[WF, "memmove/memset replaced by contracts whose preconditions (destination writable, source readable for the given size) are asserted at the call", "shift count 0..4096 (convert(): 5 - exponent/4 with the exponent short-circuited near -1200)"],
+                      mutants=[{"name": "memmove-uses-new-count", "file": "strtod.c", "find": "memmove(mant->digits + n, mant->digits, sizeof(uint32_t) * oldn);", "replace": "memmove(mant->digits + n, mant->digits, sizeof(uint32_t) * mant->n);", "expect": "precondition"},
+                               {"name": "memset-one-too-many", "file": "strtod.c", "find": "memset(mant->digits, 0, sizeof(uint32_t) * (n - 1));", "replace": "memset(mant->digits, 0, sizeof(uint32_t) * (mant->cap + 1));", "expect": "precondition"}]))
     json.dump({"units": units}, open(os.path.join(V, "units", "C13.json"), "w"), indent=1)
     print("%d units" % len(units))
